@@ -12,7 +12,7 @@ from pathlib import Path
 
 from .ctx import REPO, VERIF, NPROC
 
-MAXDTS = [0.01, 0.05, 0.1, 0.25, 1.0 / 3.0, 0.5, 1.0, 0.003]
+MAXDTS = [0.01, 0.05, 0.1, 0.25, 1.0 / 3.0, 0.5, 1.0, 0.003, 2.5, 10.0, 64.0]
 
 
 def ulp_shift(x: float, n: int) -> float:
@@ -53,7 +53,8 @@ def gen_pairs(rng, n, max_steps=1500):
         elif kind == "random_back":
             o = cur - rng.uniform(0, m * min(k + 1, 60))
         elif kind == "near_eps":
-            o = cur + rng.choice([-1, 1]) * (m * k + rng.choice([1e-9, 0.99e-9, 1.01e-9, -1e-9, -0.99e-9, 3e-10]))
+            sc = rng.choice([1.0, max(1.0, m), m])
+            o = cur + rng.choice([-1, 1]) * (m * k + sc * rng.choice([1e-9, 0.99e-9, 1.01e-9, -1e-9, -0.99e-9, 3e-10, -3e-10, -5e-10, -1.5e-9]))
         else:
             o = cur + rng.uniform(0, m * min(k + 1, 60))
         out.append((m, cur, o, kind))
